@@ -15,7 +15,8 @@ CHECKS = {
         text=("Static analysis, sound within bounds: the one-step tiling lemma (arity, containment, exact cover, "
               "bit-identical shared boundaries, own outer faces, equal sizes, centre) of every partition class's "
               "make_children is decided for symbolic boxes lo<hi, every RNG draw incl. end points, K in 2..6 "
-              "(thorough 2..8), d in 1..3 (thorough 1..4), plus independence from state left by earlier expansions; "
+              "(thorough 2..8), d in 1..3 (thorough 1..4), plus independence from state left by earlier expansions and "
+              "update_children replacing the child list by exactly the cells of the split; "
               "'leaves tile the domain' follows by induction with C03. Floating-point overflow and K,d beyond the "
               "range are not decided."),
         note=TRUST + "; numpy contracts for uniform/linspace/deepcopy; real arithmetic; bit-identity only via identical operation trees",
@@ -35,7 +36,8 @@ CHECKS = {
         engine="E4 scans + E5 absint",
         technique="source/effect scans over the AST: forbidden-source census, shared-state census, alias+mutation analysis of the user's domain (+E5 for partitions)",
         text=("Static non-interference: in PyXAB/algos and PyXAB/partition there is no clock/entropy/identity/hash-order "
-              "source other than np.random.* on the global generator, no class-level/module-level mutable state, mutable "
+              "source other than np.random.* on the global generator (a set may be built and queried but never iterated), no "
+              "class-level/module-level mutable state, mutable "
               "default, global, memoising decorator or store through a class object, and no store/del/in-place op/mutating "
               "method can hit a value aliasing the user's domain. Replay equality and isolation follow from these facts; "
               "they are not observed by running anything."),
@@ -80,7 +82,10 @@ CHECKS = {
               "get_last_point; every value returned by pull/get_last_point is by provenance a cell midpoint, an in-cell uniform "
               "sample, an arm's stored centre or a learner's proposal (no arithmetic on the way); representatives are midpoints, "
               "children lie inside parents, samples lie between their own bounds (E5). 'Never raises / never hangs' as a whole "
-              "quantifies over run-time values and is NOT claimed. One known finding: POO.algo_counter (rhomax < ~0.83)."),
+              "quantifies over run-time values and is NOT claimed; further necessary conditions are checked: no None point from pull, "
+              "positive arguments of log/sqrt/division in the schedule formulas, constructors and make_children raise on no abstract run, "
+              "a constructor branch for every accepted base algorithm of POO/GPO, no ordering of tuples that contain cells. Two known "
+              "findings: POO.algo_counter (rhomax < ~0.83) and GPO.pull returning None when floor(n/2N) = 0."),
         note=TRUST + "; pull precedes receive_reward; T within budget; depth caps large enough; np.random.uniform(a,b) in [a,b]",
         ref="DESIGN.md section 4-C01"),
     "C04": dict(
@@ -100,7 +105,8 @@ CHECKS = {
               "infinite for never-pulled cells, with parameters reaching it unchanged; t+, delta~, c1, tau_h match the published "
               "formulas and HCT thresholds are rebuilt every traversal; B = U at leaves and min(U, max over all children of B) elsewhere, "
               "bottom-up; the descent starts at the root, continues exactly under the published condition and steps to an arg-max-B "
-              "child; every U write is followed by back-propagation. NOT decided: that U/B are up to date w.r.t. the raw history at "
+              "child; every U write is followed by back-propagation; the cell statistics U is built from (count, mean, clipped variance) are "
+              "the empirical ones; the cap of delta~ is the reference one per use (1/2 for thresholds, 1 for widths). NOT decided: that U/B are up to date w.r.t. the raw history at "
               "every round."),
         note=TRUST + "; positive parameters; sympy single-expression equivalence (numeric identity test at rational points as fallback); VHCT threshold pinned",
         ref="DESIGN.md section 4-C05"),
@@ -110,7 +116,8 @@ CHECKS = {
         text=("Static necessary conditions for T-HOO, HCT, VHCT: one expansion site per round, outside loops, on the handed-out "
               "cell, leaf-guarded; pull/get_last_point add no cells; the guards dominating the expansion are exactly the published "
               "rule (T-HOO depth bound as a symbolic identity; HCT/VHCT leaf and pulls >= tau with the C05 threshold formulas); new "
-              "cells start with zero pulls, infinite U/B and a fresh reward list; the root is split once at construction. The numeric "
+              "cells start with zero pulls, infinite U/B and a fresh reward list; the root is split once at construction; the pull count and "
+              "variance compared by the predicate are the empirical ones and delta~ in a threshold is capped at 1/2. The numeric "
               "depth of a run is NOT decided."),
         note=TRUST + "; positive parameters; pull/receive_reward alternate",
         ref="DESIGN.md section 4-C06"),
@@ -120,7 +127,9 @@ CHECKS = {
         text=("Static necessary conditions: each recommendation is an arg-max (direction, key resolved to the recorded attribute, "
               "seed -inf, full candidate set) returning the winner's representative; never-evaluated cells cannot win (sentinel / "
               "hand-out rule / mean conventions); POO/GPO return the arg-max-score learner's proposal / validated point; PCT/VPCT are "
-              "pure forwards; rewards are recorded unconditionally (C04's ONCE/NODE rules for these algorithms). 'Whatever the sign of "
+              "pure forwards; rewards are recorded unconditionally on the cell that was handed out (C04's ONCE/NODE/PAIR rules for these "
+              "algorithms, incl. that the finished state is not entered while a cell is still handed out); the scores compared by POO/GPO "
+              "are the documented means (C09/C10's mean rules). 'Whatever the sign of "
               "the rewards' is covered only through the sentinel rule."),
         note=TRUST + "; ties may resolve either way",
         ref="DESIGN.md section 4-C07"),
@@ -146,12 +155,14 @@ CHECKS = {
         note=TRUST + "; rhomax >= 0.84 (smaller: C01 known finding); pull/receive_reward alternate",
         ref="DESIGN.md section 4-C10"),
     "C11": dict(
-        engine="E7 idioms + E3 + E2 cfg",
-        technique="arg-max fold recognition + sympy equivalence of index/radius formulas + structural analysis of the hand-over loop",
+        engine="E7 idioms + E3 + E2 cfg + E5 absint",
+        technique="arg-max fold recognition + sympy equivalence of index/radius formulas + abstract interpretation of the hand-over code (symbolic children boxes and arm, all comparison outcomes)",
         text=("Static necessary conditions: pull is an unfiltered arg-max over all active arms of mean + 2*sqrt(8*phase/(2+pulls)); "
               "the arm's mean is a running mean over its own count; refinement happens on the pulled arm's cell exactly when the "
-              "radius <= nu*rho^depth; after refinement every child either takes the arm over (at most one, only if the arm lies in its "
-              "closed box in every dimension) or gets a new arm at its centre; arms are never removed; initially layer 1 is covered. "
+              "radius <= nu*rho^depth (this round's phase); after refinement - decided by executing the hand-over code on K symbolic "
+              "children and a symbolic arm for every outcome of the coordinate comparisons - every child is the cell of exactly one arm: "
+              "the refined arm goes to the first child whose closed box contains it, every other child gets a new arm at its centre with "
+              "zero statistics, nothing else changes; arms are never removed; initially layer 1 is covered. "
               "Coverage as a geometric run-time fact follows with C02 and is NOT observed."),
         note=TRUST + "; C02 tiling lemma; positive parameters",
         ref="DESIGN.md section 4-C11"),
@@ -221,14 +232,19 @@ def main():
             dict(name="E1 model", path="pyxab_static/model.py", serves_properties=ALL, kind_free_text="ast program model, MRO, call resolution"),
             dict(name="E2 cfg", path="pyxab_static/cfg.py", serves_properties=["C01", "C03", "C04", "C05", "C06", "C07", "C08", "C09", "C10", "C11", "C12", "C13", "C15"],
                  kind_free_text="statement-level CFG on networkx: dominating guards, reaching definitions, must-pass-through"),
-            dict(name="E5 absint", path="pyxab_static/absint.py", serves_properties=["C02", "C03", "C14", "C16"],
-                 kind_free_text="one-step abstract interpreter of PyXAB/partition over symbolic terms"),
+            dict(name="E5 absint", path="pyxab_static/absint.py", serves_properties=["C01", "C02", "C03", "C11", "C14", "C16"],
+                 kind_free_text="one-step abstract interpreter of PyXAB code (make_children, Zooming hand-over) over symbolic terms"),
+            dict(name="E0 normaliser", path="pyxab_static/normalize.py", serves_properties=["C%02d" % k for k in range(1, 18)],
+                 kind_free_text="semantics-preserving canonicalisation of the analysed AST (helper inlining, loop forms, temporaries)"),
+            dict(name="path walker", path="pyxab_static/credit.py", serves_properties=["C04", "C07", "C09", "C10", "C12", "C13", "C15"],
+                 kind_free_text="path enumeration of pull/receive_reward with per-path alias environments, atomic conditions, entry-state rendering"),
         ],
         checks=checks,
         not_applicable=na,
         notes=("All checks are static analysis of /repo's working tree (python3-vt check.py --property Cxx). Exit 0 = all "
                "obligations discharged, 1 = VIOLATION, 2 = ANALYSIS-ERROR (anchor vanished / unsupported construct; "
-               "fail-closed). Known findings: known_findings.json. Seeded changes: seeded/, run with tools/run_seeded.py."),
+               "fail-closed). Known findings: known_findings.json. Validation corpora: seeded/ (153 breaking changes, tools/run_seeded.py), "
+               "benign/ (90 behaviour-preserving refactorings, tools/run_benign.py), selftest/ (109 edits)."),
     )
     (VERIF / "MANIFEST.json").write_text(json.dumps(m, indent=1))
     print("MANIFEST.json: %d checks, %d not_applicable" % (len(checks), len(na)))
